@@ -91,7 +91,7 @@ class TreeGen:
         if self.rng.random() < 0.15:
             # a constant with many significant digits (calibrated numbers, also large ones): it has to arrive in the equation as it is,
             # whether typed in the source or inserted from the preparser context
-            return E.num(float(np.round(self.rng.choice([0.123456789, 1.987654321, 0.000123456789, 12.3456789, 0.33333333]) * self.rng.uniform(0.5, 2.0), 9)))
+            return E.num(float(np.round(self.rng.choice([0.123456789, 1.987654321, 0.0123456789, 12.3456789, 0.33333333]) * self.rng.uniform(0.5, 2.0), 9)))
         return E.num(float(self.rng.choice([0.25, 0.5, 1, 1.5, 2, 3, 0.1, 0.9])))
 
     def pos(self, d):
